@@ -81,7 +81,7 @@ def present(traces, fn, attack):
     return traces
 
 
-def attack_once(cipher, fn, attack, key, meta_in, traces, guesses, words, bs, kw_words):
+def attack_once(cipher, fn, attack, key, meta_in, traces, guesses, words, bs, kw_words, cstep=None):
     import scared
     mod = getattr(scared, cipher).selection_functions.encrypt
     tag = 'ciphertext' if (fn.startswith('Last') or fn.endswith('LastRounds')) else 'plaintext'
@@ -91,13 +91,13 @@ def attack_once(cipher, fn, attack, key, meta_in, traces, guesses, words, bs, kw
     hw = scared.HammingWeight()
     if attack == 'CPA':
         disc = scared.nanmax if 'AddRoundKey' in fn else scared.maxabs
-        a = scared.CPAAttack(selection_function=sfw, model=hw, discriminant=disc, precision='float64')
+        a = scared.CPAAttack(selection_function=sfw, model=hw, discriminant=disc, precision='float64', convergence_step=cstep)
     elif attack == 'DPA':
-        a = scared.DPAAttack(selection_function=sfw, model=scared.Monobit(0), discriminant=scared.maxabs, precision='float64')
+        a = scared.DPAAttack(selection_function=sfw, model=scared.Monobit(0), discriminant=scared.maxabs, precision='float64', convergence_step=cstep)
     elif attack in ('ANOVA', 'NICV', 'SNR'):
-        a = getattr(scared, attack + 'Attack')(selection_function=sfw, model=hw, discriminant=scared.maxabs, partitions=range(9), precision='float64')
+        a = getattr(scared, attack + 'Attack')(selection_function=sfw, model=hw, discriminant=scared.maxabs, partitions=range(9), precision='float64', convergence_step=cstep)
     elif attack == 'MIA':
-        a = scared.MIAAttack(selection_function=sfw, model=hw, discriminant=scared.maxabs, partitions=range(9), bin_edges=np.linspace(-2, 40, 11))
+        a = scared.MIAAttack(selection_function=sfw, model=hw, discriminant=scared.maxabs, partitions=range(9), bin_edges=np.linspace(-2, 40, 11), convergence_step=cstep)
     else:       # template DPA on the first attacked word: build with the intermediate under the true key, match with hypotheses
         w0 = words[0]
         one = getattr(mod, fn)(guesses=np.array([kw_words[w0]], dtype='uint8'), words=w0)
@@ -165,7 +165,10 @@ def run(chk):
             if traces is None:
                 skipped += 1
                 continue
-            a, sfw, scores, wl = attack_once('aes', fn, attack, key, inputs, traces, guesses, words, bs, kwv)
+            # every second run also asks for convergence traces (results computed several times along the way): the final ranking is the same statement
+            nrun = getattr(chk, '_c17_runs', 0) + 1
+            chk._c17_runs = nrun
+            a, sfw, scores, wl = attack_once('aes', fn, attack, key, inputs, traces, guesses, words, bs, kwv, cstep=(N // 4 if nrun % 2 else None))
             judge(chk, 'aes', fn, attack, key, sfw, scores, wl, guesses, kwv, bs, words)
         # ---------------- DES
         dkeys = [[rng.randint(0, 255) for _ in range(8)] for _ in range(1 if q else 3)]
@@ -190,7 +193,9 @@ def run(chk):
             if traces is None:
                 skipped += 1
                 continue
-            a, sfw, scores, wl = attack_once('des', fn, attack, key, inputs, traces, guesses, words, bs, kwv)
+            nrun = getattr(chk, '_c17_runs', 0) + 1
+            chk._c17_runs = nrun
+            a, sfw, scores, wl = attack_once('des', fn, attack, key, inputs, traces, guesses, words, bs, kwv, cstep=(ND // 4 if nrun % 2 else None))
             judge(chk, 'des', fn, attack, key, sfw, scores, wl, guesses, kwv, bs, words)
         chk.extra['non_identifiable_combinations_skipped'] = skipped
     finally:
